@@ -160,7 +160,17 @@ func init() {
 		if rd == nil || len(args) != 1 {
 			return nil
 		}
-		return x.readStream(st, rd, args[0], cc.Args[0].Type())
+		var outs []Outcome
+		if x.faulty {
+			// fault mode: the read may fail after delivering any part of what was asked for
+			f := st.fork()
+			n := f.fresh("rn", SInt)
+			f.assume(tAnd(tCmp("<=", "0", n), tCmp("<=", n, x.lenOf(f, args[0], cc.Args[0].Type()))))
+			x.havocReachable(f, args[0])
+			x.markFailed(f, "read")
+			outs = append(outs, Outcome{f, TupleV{TV{SInt, n}, x.freshErr(f, "rderr")}})
+		}
+		return append(outs, x.readStream(st, rd, args[0], cc.Args[0].Type())...)
 	}
 }
 
